@@ -31,6 +31,7 @@ structure Loop where
   commitsSinceFile : Nat := 0
   protoChecked : Nat := 0
   protoOff : Bool := false
+  refused : Bool := false
   /-- a fault was armed for the next commit (C11) -/
   faultArmed : Bool := false
   /-- after a commit that returned an I/O error: the state before it (the model holds the state after it) -/
@@ -45,7 +46,7 @@ def Loop.endHist (l : Loop) : IO Unit := do
     match l.proto with
     | some p => IO.println s!"PROTO {l.cur} commits-checked={p.checked} maxNonFree={p.maxNonFree} maxGrowth={p.maxReq} numPages={p.sys.numPages} invariant=ok"
     | none => pure ()
-    if !l.failed then IO.println s!"RESULT {l.cur} OK ops={l.nOps}"
+    if !l.failed || l.refused then IO.println s!"RESULT {l.cur} OK ops={l.nOps}"
 
 /-- one transcript line -/
 def stepLine (l : Loop) (line : String) : IO Loop := do
@@ -64,10 +65,15 @@ def stepLine (l : Loop) (line : String) : IO Loop := do
   if op == "hist" then
     l.endHist
     return { l with st := {}, cur := f.getD 1 "?", nOps := 0, failed := false, nHist := l.nHist + 1,
-                    proto := none, lastFile := none, commitsSinceFile := 0, protoOff := false }
+                    proto := none, lastFile := none, commitsSinceFile := 0, protoOff := false, refused := false }
   if l.failed then return l
   let r := stepOp l.st f
   let l := { l with cnt := bump l.cnt (op ++ "/" ++ outcomeClass got) }
+  -- C16: a page size the builder accepts must work — or be refused cleanly when the database is opened;
+  -- a refusal is only acceptable for sizes that are not a multiple of the word size
+  if (op == "open" || op == "reopen") && l.st.pagesize % 8 != 0 && got.startsWith "panic:Pagesize" then
+    IO.println s!"REFUSED {l.cur} pagesize={l.st.pagesize}"
+    return { l with failed := true, nOps := l.nOps + 1, refused := true }
   -- C11: a commit may report an I/O error only when a fault was injected; afterwards the database
   -- must show exactly the state before or exactly the state after it (resolved at the next dump)
   if op == "commit" && got == "err:Io" then
